@@ -175,6 +175,8 @@ def _contains(root, node):
 def run(chk):
     cfgs = ["base", "z"]
     chk.configs = cfgs
+    chk.rule("THRESHOLD.bisector", "the length below which NormalizeVector gives up (AlmostZero's epsilon) is not above the shortest bisector sum DoSquare can see, "
+             "sqrt(2 - 2C) with C the cosine above which OffsetPoint sends a join to DoMiter - both literals read from the code")
     chk.rule("LOOP", "no member or outer local is written while offsetting one path/group and read while offsetting the next before re-initialisation")
     chk.rule("DELTA.abs-only", "outside the EndType::Polygon branch, delta is only read as abs(delta)")
     chk.rule("ZERASE", "the USINGZ copies of the offset code equal the plain code after erasing Z-only constructs")
@@ -227,6 +229,7 @@ def run(chk):
         from ..engines import e14_poly as e14
         e14.rule_offset(db, chk, cfg)
         e12.join_dispatch_table(db, chk, cfg)
+        e12.bisector_threshold_rule(db, chk, cfg)
     chk.floor("LOOP", 2 * len(cfgs))
     chk.floor("DELTA.abs-only", 4 * len(cfgs))
     chk.floor("CAP.table", 6 * len(cfgs))
